@@ -26,7 +26,9 @@ def WFStmt (sc : Schema) : Stmt → Prop
   | .delete _ => True
   | .insert rows => ∀ es ∈ rows, es.length = sc.ncols
   | .failing _ => True
-  | .upsert _ _ => False     -- INSERT … ON DUPLICATE KEY UPDATE: not covered by the restore theorems (see C01_upsert_*)
+  | .upsert _ _ => False     -- INSERT … ON DUPLICATE KEY UPDATE: not covered by the restore theorems (correspondence only)
+  | .updateLim _ _ _ _ => False   -- ORDER BY / LIMIT forms: correspondence only
+  | .deleteLim _ _ _ => False
 
 theorem wfStmt_iff (sc : Schema) (s : Stmt) : WFStmt sc s ↔ StmtWF sc s := by
   cases s <;> exact Iff.rfl
